@@ -21,7 +21,7 @@ func TestC07(t *testing.T) {
 	mon.Main(t, mon.Check{
 		ID:    "C07",
 		Level: "exploration",
-		Rule:  "hostile bytes against the real code; a panic anywhere kills the worker and is attributed to the journalled case. (A) decoders: every byte string of <=3 bytes (quick) / every 4-byte string starting with a packet type (thorough) plus PRNG strings into gbn.Deserialize, MsgData.Deserialize and the websocket envelope decoding steps (regex wrapper + protojson), each under recover. (B) live GBN handshake: a real server is fed SYN with each of the 256 window values followed by SYNACK and a DATA/ACK/NACK exchange, truncated/oversized/unknown packets at every step; a real client is fed hostile replies. (C) live data phase: for N in {1,2,3} every reachable (outstanding k, base offset) sender state, for N in {20,254} sampled states: one hostile packet is injected - ACK and NACK with every one of the 256 sequence values, DATA with every sequence value and flag bytes {0,1,2,255} - then the window bookkeeping is read through the hook (base<S, top<S, size<=N) and the conversation continues. (E) websocket envelope end to end: a real ClientConn in websocket mode dials a local TLS websocket endpoint (certificate trusted through SSL_CERT_FILE) that answers its receive subscriptions with hostile text frames (malformed JSON, error envelopes, valid envelopes carrying hostile GBN packets). (D) Noise: PRNG-mutated, truncated and random acts into DoHandshake (both roles, XX and KK), hostile record streams into ReadMessage, NoiseGrpcConn.Read and NoiseConn.Read; act twos that authenticate - written through a hook by a responder that holds the right secret - with hostile length fields (v0: 0..65535 in a payload field of 0..1000 bytes; v1/v2: 0, body+-1, body+16/17, 2^16, 2^20, 2^26 and the values that wrap the 32-bit size computation) into the initiator's DoHandshake. Non-trivial = every case (each injects hostile input); distinct = (kind, parameters).",
+		Rule:  "hostile bytes against the real code; a panic anywhere kills the worker and is attributed to the journalled case. (A) decoders: every byte string of <=3 bytes (quick) / every 4-byte string starting with a packet type (thorough) plus PRNG strings into gbn.Deserialize, MsgData.Deserialize and the websocket envelope decoding steps (regex wrapper + protojson), each under recover. (B) live GBN handshake: a real server is fed SYN with each of the 256 window values followed by SYNACK and a DATA/ACK/NACK exchange, truncated/oversized/unknown packets at every step; a real client is fed hostile replies. (C) live data phase: for N in {1,2,3} every reachable (outstanding k, base offset) sender state, for N in {20,254} sampled states: one hostile packet is injected - ACK and NACK with every one of the 256 sequence values, DATA with every sequence value and flag bytes {0,1,2,255} - then the window bookkeeping is read through the hook (base<S, top<S, size<=N) and the conversation continues. (E) websocket envelope end to end: a real ClientConn in websocket mode dials a local TLS websocket endpoint (certificate trusted through SSL_CERT_FILE) that answers its receive subscriptions with hostile text frames (malformed JSON, error envelopes, valid envelopes carrying hostile GBN packets). (D) Noise: PRNG-mutated, truncated and random acts into DoHandshake (both roles, XX and KK), hostile record streams into ReadMessage, NoiseGrpcConn.Read and NoiseConn.Read; act twos that authenticate - written through a hook by a responder that holds the right secret - with hostile length fields (v0: 0..65535 in a payload field of 0..1000 bytes; v1/v2: 0, body+-1, body+16/17, 2^16, 2^20, 2^26 and the values that wrap the 32-bit size computation) into the initiator's DoHandshake. (F) the stack live, real time: real ServerConn + ClientConn over the relay model with real NoiseGrpcConn handshakes and both applications writing and reading; the relay rewrites one message in flight (the j-th data packet of one direction, j in 0..8: an act of the Noise handshake or a record): hostile control-message framing in a valid GBN packet, a well-framed control message with hostile Noise bytes, another GBN packet, changed flag bytes, the payload of an earlier message of the same direction (replay) or of the opposite one (reflection); besides the panic oracle, what either application read must be a prefix of what its peer wrote. Non-trivial = every case (each injects hostile input); distinct = (kind, parameters).",
 		Assumptions: []string{
 			"the websocket envelope is exercised both through the decoding steps of websocketTransport.Recv (hook, bulk) and through a real TLS websocket on loopback (slice E)",
 		},
